@@ -51,6 +51,9 @@ func TestGenC06(t *testing.T) {
 		if c.keepalive {
 			cfg.ping, cfg.pong = 5*time.Second, 3*time.Second
 		}
+		if id%3 == 0 {
+			cfg.hsTO = 2 * time.Second // the mailbox's setting: above the 1 s resend timeout
+		}
 		l.keep = l.keep[:0]
 		l.o.line("BEGIN %s n=%d chunk=0 class=%s", cfg.id, c.n, c.class)
 		pan := bubble(t, func(t *testing.T) {
